@@ -142,6 +142,8 @@ static void c16_case(uint64_t idx, rng_t *r) {
         g_ctx = "varintFORReadMetadata";
         varintFORReadMetadata(enc, &rm);
         M16(rm.count == n && rm.minValue == mn && (int)rm.offsetWidth == ref_bytes_needed(mx - mn) && rm.encodedSize == ret, "FOR.ReadMetadata", "n=%zu count %zu min %" PRIu64 " width %d size %zu/%zu", n, rm.count, rm.minValue, (int)rm.offsetWidth, rm.encodedSize, ret);
+        /* the size predictor applied to a meta obtained from the header reader (walking concatenated records) */
+        M16(varintFORSize(&rm) == ret, "FOR.Size(meta-from-ReadMetadata)", "n=%zu size %zu written %zu", n, varintFORSize(&rm), ret);
         M16((int)varintFORComputeWidth(mx - mn) == ref_bytes_needed(mx - mn), "FOR.ComputeWidth", "range %" PRIu64, mx - mn);
         M16(varintFORGetCount(enc) == n, "FOR.GetCount", "n=%zu got %zu", n, varintFORGetCount(enc));
         M16(varintFORGetMinValue(enc) == mn, "FOR.GetMinValue", "want %" PRIu64, mn);
@@ -254,6 +256,9 @@ static void c16_case(uint64_t idx, rng_t *r) {
         g_ctx = "varintAdaptiveReadMeta";
         varintAdaptiveReadMeta(enc, &rm);
         M16((int)rm.encodingType == enc[0], "Adaptive.ReadMeta.encodingType", "got %d", (int)rm.encodingType);
+        if (enc[0] == VARINT_ADAPTIVE_FOR) {
+            M16(varintFORSize(&rm.encodingMeta.forMeta) + 1 == ret, "Adaptive.ReadMeta.forMeta.Size", "n=%zu nested size %zu + 1, written %zu", n, varintFORSize(&rm.encodingMeta.forMeta), ret);
+        }
         if (enc[0] == VARINT_ADAPTIVE_FOR || enc[0] == VARINT_ADAPTIVE_PFOR) {
             M16(rm.originalCount == n, "Adaptive.ReadMeta.originalCount", "n=%zu got %zu (type %d)", n, rm.originalCount, enc[0]);
             M16(rm.encodedSize == ret, enc[0] == VARINT_ADAPTIVE_FOR ? "Adaptive.ReadMeta.encodedSize.FOR" : "Adaptive.ReadMeta.encodedSize.PFOR", "n=%zu reported %zu written %zu", n, rm.encodedSize, ret);
